@@ -1623,6 +1623,25 @@ func Translate(fset *token.FileSet, file *ast.File, names []string, cfg *Config)
 	var b strings.Builder
 	for _, n := range names {
 		fd := decls[n]
+		if i := strings.Index(n, "/func"); i > 0 {
+			// "<function>/func<k>": the k-th function literal inside <function> (a closure that only reads the
+			// receiver through configured library calls), translated as a function of its own named <function>_func<k>
+			base := decls[n[:i]]
+			k, _ := strconv.Atoi(n[i+len("/func"):])
+			fd = nil
+			if base != nil && base.Body != nil && k > 0 {
+				cnt := 0
+				ast.Inspect(base.Body, func(x ast.Node) bool {
+					if lit, ok := x.(*ast.FuncLit); ok {
+						cnt++
+						if cnt == k && fd == nil {
+							fd = &ast.FuncDecl{Name: ast.NewIdent(base.Name.Name + "_func" + strconv.Itoa(k)), Type: lit.Type, Body: lit.Body}
+						}
+					}
+					return true
+				})
+			}
+		}
 		if fd == nil || fd.Body == nil {
 			return "", fmt.Errorf("function %s not found", n)
 		}
